@@ -235,8 +235,68 @@ fn history<F: Family>(input: &Input, ctx: &mut Ctx) -> CaseResult {
             Ok(b) => b.as_ref().to_vec(),
             Err(e) => viol!("encode of a valid packet failed: {:?}", e),
         };
-        let op = if i + 1 == n { 0 } else { t.pick(3) };
+        let op = if i + 1 == n { 0 } else { t.pick(4) };
         match op {
+            3 => {
+                // two encodes in flight on this thread: A is parked on a sink that is not ready after k bytes; B (another
+                // packet, its own sink) is started, parked as well, A is completed, then B. Each sink receives its own
+                // packet's encoding.
+                let p2 = if t.flag() { F::gen_of_type(&mut t, &cfg, 2) } else { F::gen(&mut t, &cfg) }.map_err(|e| Violation::new(e.0))?;
+                let p2 = if t.chance(1, 3) { F::derive(&p, &mut t).unwrap_or(p2) } else { p2 };
+                let enc2 = match F::encode(&p2) {
+                    Ok(b) => b.as_ref().to_vec(),
+                    Err(e) => viol!("encode of a valid packet failed: {:?}", e),
+                };
+                let script = |k: usize| -> Vec<WStep> {
+                    let mut v = Vec::new();
+                    if k > 0 {
+                        v.push(WStep::Accept(k));
+                    }
+                    v.push(WStep::Pending);
+                    v
+                };
+                let (ka, kb) = (t.pick(enc.len()), t.pick(enc2.len()));
+                let (sa, sb) = (script(ka), script(kb));
+                let mut wa = ScriptedWriter::new(&sa, enc.len() + 16);
+                let mut wb = ScriptedWriter::new(&sb, enc2.len() + 16);
+                let (ra, rb, parked_both);
+                {
+                    let mut fa = Box::pin(F::encode_async(&p, &mut wa));
+                    let first_a = sio::poll_n(fa.as_mut(), 1);
+                    let mut fb = Box::pin(F::encode_async(&p2, &mut wb));
+                    let first_b = sio::poll_n(fb.as_mut(), 1);
+                    // a blocking encode of either packet while both are parked
+                    for (q, e) in [(&p, &enc), (&p2, &enc2)] {
+                        match F::encode(q) {
+                            Ok(b) => ensure!(b.as_ref() == &e[..], "blocking encode emitted different bytes while two async encodes were parked on this thread; packet {}", fam::render(q)),
+                            Err(e) => viol!("blocking encode failed while two async encodes were parked: {:?}", e),
+                        }
+                    }
+                    parked_both = first_a.is_none() && first_b.is_none();
+                    ra = match first_a {
+                        Some(r) => r,
+                        None => sio::drive(fa.as_mut(), enc.len() + 16).0,
+                    };
+                    rb = match first_b {
+                        Some(r) => r,
+                        None => sio::drive(fb.as_mut(), enc2.len() + 16).0,
+                    };
+                }
+                if let Err(e) = &ra {
+                    viol!("encode_async (first of two in flight on one thread) failed: {:?}", e);
+                }
+                if let Err(e) = &rb {
+                    viol!("encode_async (second of two in flight on one thread) failed: {:?}", e);
+                }
+                ensure!(
+                    wa.out == enc && wb.out == enc2,
+                    "two async encodes in flight on one thread (A parked after {} bytes, then B started and parked after {} bytes, A completed, B completed): sink A received {} ({} bytes) for {} ({} bytes), sink B received {} ({} bytes) for {} ({} bytes)",
+                    ka, kb, hex_short(&wa.out, 40), wa.out.len(), hex_short(&enc, 40), enc.len(), hex_short(&wb.out, 40), wb.out.len(), hex_short(&enc2, 40), enc2.len()
+                );
+                if parked_both {
+                    ctx.label("two-encodes-in-flight");
+                }
+            }
             2 => {
                 // abandon: accept k bytes (possibly 0), then Pending for as long as we poll
                 let k = t.pick(enc.len() + 1);
@@ -318,6 +378,8 @@ pub fn run(env: &mut Env) -> RunResult {
     env.run_tapes(SUB_T5, n, 240)?;
     env.run_tapes(SUB_H3, n / 2, 400)?;
     env.run_tapes(SUB_H5, n / 2, 500)?;
+    env.require("c09.history.v3", "two-encodes-in-flight");
+    env.require("c09.history.v5", "two-encodes-in-flight");
     env.require("c09.history.v3", "complete-after-abandon");
     env.require("c09.history.v5", "complete-after-abandon");
     let s3 = crate::sized::inputs(crate::model::Fam::V3, env.thorough());
